@@ -99,9 +99,25 @@ func TestC10Secs1Fresh(t *testing.T) {
 			gens := rapid.IntRange(2, 4).Draw(rt, "generations")
 			nontrivial := false
 			var pendingTail []e4.Block // continuation of a message begun on the previous generation
+			var resend []e4.Block      // that message, to be re-sent from its first block on the next generation
 			for g := 0; g < gens; g++ {
 				connect()
 				delivered := len(dl.snapshot())
+				// (0) a peer that re-sends, from its first block, the message it could not finish on the
+				// previous generation: its first block has the SAME header as the last block accepted there
+				if len(resend) > 0 {
+					for _, b := range resend {
+						if r := p.SendRaw(b.Bytes(), nil); r.Err != nil || r.Resp != e4.ACK {
+							fail("generation %d: block %d of a message re-sent from its first block was not acknowledged: %+v", g+1, b.Number, r)
+						}
+					}
+					synctest.Wait()
+					if n := len(dl.snapshot()); n != delivered+1 {
+						fail("generation %d: a message re-sent from its first block (whose header equals the last block accepted on the previous generation) produced %d deliveries, want 1", g+1, n-delivered)
+					}
+					delivered++
+					resend, pendingTail = nil, nil
+				}
 				// (1) a continuation block of the previous generation's unfinished message: not a message
 				if len(pendingTail) > 0 {
 					r := p.SendRaw(pendingTail[len(pendingTail)-1].Bytes(), nil)
@@ -160,7 +176,17 @@ func TestC10Secs1Fresh(t *testing.T) {
 						}
 					}
 					pendingTail = bl[k:]
+					if k == 1 && rapid.Bool().Draw(rt, "resendFromStart") {
+						resend = bl
+					}
 					nontrivial = true
+				} else if rapid.Bool().Draw(rt, "greetingLast") {
+					// the generation ends right after the greeting: it is the last block accepted, and the
+					// restarted peer's first block on the next generation
+					if r := p.SendRaw(greeting.Bytes(), nil); r.Err != nil {
+						fail("generation %d: line error: %v", g+1, r.Err)
+					}
+					synctest.Wait()
 				}
 				how := rapid.SampledFrom([]string{"close-reopen", "close-reopen", "peer-drop"}).Draw(rt, "end")
 				hist = append(hist, fmt.Sprintf("generation %d ok; partial left: %v; ended by %s", g+1, pendingTail != nil, how))
